@@ -778,6 +778,17 @@ class Interp:
     def e_Dict(self, n: ast.Dict) -> Term:
         return ("dict", tuple((self.expr(k) if k is not None else C("**"), self.expr(v)) for k, v in zip(n.keys, n.values)))
 
+    def e_Yield(self, n: ast.Yield) -> Term:
+        # a generator body is interpreted like any other: the yielded value is recorded as an event; what `send` hands back is unknown
+        v = self.expr(n.value) if n.value is not None else NONE
+        self.emit("yield", n, value=v)
+        return ("call", "builtins.<sent>", (), (("@", C(next(self._uid))),))
+
+    def e_YieldFrom(self, n: ast.YieldFrom) -> Term:
+        v = self.expr(n.value)
+        self.emit("yield", n, value=("star", v))
+        return NONE
+
     def e_Starred(self, n: ast.Starred) -> Term:
         return ("star", self.expr(n.value))
 
